@@ -52,6 +52,13 @@ def run(ctx):
     trw = ctx.path("c07w.ndjson")
     ctx.run_mvh(["wlink", "-aux", "c07", "-out", trw, "-seed", ctx.seed, "-tier", ctx.tier])
     wrecs, frames = _writer.validate_links(ctx, trw, defs, clause_filter=lambda c: c in WRITER)
+    import random
+    import scenarios
+    from checks import _node
+    scs = [sc for sc in scenarios.fam_links(random.Random(ctx.seed), ctx.thorough()) if sc["name"] == "links/v2_keyed"]
+    runs = _node.play(ctx, scs)
+    st = _node.validate(ctx, runs, defs, ["C07."])
+    ctx.cov["node_keyed_link_events"] = st["events"]
     ctx.sample(hist[0])
     ctx.sample(hist[-1])
     ctx.sample({"alphabet_timestamps": "0,1,5,999999,1000000,1000001,1999999,2000000,2000001,2^47,2^48-2,2^48-1"})
